@@ -136,6 +136,11 @@ fn main() {
             }
             inproc::install_panic_capture();
             let mut o = out::Out::new();
+            if arg(&args, "--bins-profile").as_deref() == Some("release") {
+                o.obs("shards_driving_release_profile_binaries", 1);
+            } else {
+                o.obs("shards_driving_checked_profile_binaries", 1);
+            }
             match prop.as_str() {
                 "C04" => c04::run(&ctx, &mut o),
                 "C01" => c01::run_c01(&ctx, &mut o),
